@@ -94,12 +94,12 @@ KEYFILES = ('src/core/key/paseto_asymmetric_public_key.rs', 'src/core/key/paseto
 
 
 def job_key_ctors(ses):
-    """every From / TryFrom constructor of the three key wrappers, executed from MIR on symbolic key material: a key that is accepted holds exactly the bytes it was given
+    """every From / TryFrom constructor of the three key wrappers and of PasetoNonce, executed from MIR on symbolic key material: a key that is accepted holds exactly the bytes it was given
     (so two different byte strings are never the same key object, and the entry-point jobs' key values are what a caller can really construct)"""
     w = world(); ex = w.executor(); n = 0
     B = Const('key_material', Bytes)
     for g in w.fns:
-        if g.file not in KEYFILES or g.method not in ('from', 'try_from') or '{closure' in g.name or len(g.params) != 1: continue
+        if not (g.file in KEYFILES or (g.file or '').startswith('src/core/key/paseto_nonce_impl/')) or g.method not in ('from', 'try_from') or '{closure' in g.name or len(g.params) != 1: continue
         pty = g.ltypes.get(g.params[0], '')
         m = re.search(r'Key<(\w+)>', pty)
         st = new_state([Length(B) < 2**20])
